@@ -18,6 +18,7 @@ import pysam
 
 from ..gen import sim
 from ..gen import c06_gen as G
+from ..gen import c06_filter as F
 
 RULE = ("(read, variant) pairs of error-free reads (exact copies of a haplotype, canonical CIGAR with indels at the "
         "normalised position; decorated with S/H clips, N skips, =/X, unrelated indels, mates) over random references "
@@ -25,7 +26,11 @@ RULE = ("(read, variant) pairs of error-free reads (exact copies of a haplotype,
         "synthetic calls of the walker / prefix / split / realign / no-reference detector. A pair is non-trivial if the "
         "read overlaps the variant (or lies within 12 bp of it); a synthetic call is non-trivial if it yields or "
         "decides something. distinct = distinct (variant kind, allele, CIGAR around the variant, offsets to read "
-        "start/end, mode) or distinct synthetic input")
+        "start/end, mode) or distinct synthetic input. Modes: with reference (Levenshtein and affine gap costs), without. "
+        "Filter stream: alignment records of 1-2 BAM files (flags, mapq around the threshold, read groups of three samples / "
+        "none, SEQ '*', CIGAR '*', BX/HP/PS tags, supplementary alignments, poison copies carrying the opposite alleles under "
+        "flags that must be filtered) under random reader configurations, samples and regions; a record is non-trivial if "
+        "it is a poison record that must be dropped or a usable error-free alignment")
 MANIFEST = dict(
     text="Lean 4 theorems about a hand-written model of the CIGAR/variant lock-step walk, the CIGAR split and prefix "
          "arithmetic, the re-alignment decision and the no-reference detector: the walk equals the alignment's "
@@ -44,17 +49,35 @@ MANIFEST = dict(
     note="trusted: Lean kernel, axioms ⊆ {propext, Classical.choice, Quot.sound}; the hand-written model (tied by "
          "differential testing); edit_distance = Levenshtein is C19's claim; the window lemma is proved for SNV/MNP only "
          "(insertions/deletions: differential + ground truth); the no-reference theorem covers SNVs (unshiftable indels: "
-         "differential + ground truth); affine-gap and k-merald re-alignment are not modelled; the model describes the "
-         "code with fixes F12-F16 applied (each defect also modelled as-is, selectable, with a Lean witness)",
+         "differential + ground truth); k-merald re-alignment and CRAM are not modelled; the model describes the "
+         "code with fixes F12-F16 applied (each defect also modelled as-is, selectable, with a Lean witness). Deepened: "
+         "edit_distance_affine_gap (three-table Gotoh DP + prefix/suffix shortcut) is modelled and proved to compute the minimum "
+         "cost over all enumerated alignments — the DP for all costs, the whole function with its shortcut for "
+         "gap_extend <= gap_start (also tested against two brute-force yard-sticks) —, the affine branch of realign gives "
+         "the carried allele for error-free reads over isolated variants; ReadSetReader.read as a whole (fetch, sample "
+         "selection, regions, _usable_alignments, variant pointer, missing SEQ/CIGAR/RG, grouping, create_read_from_group) is "
+         "modelled: a primary alignment with mapq >= threshold is never filtered, the filter is an order-preserving, "
+         "idempotent selection, secondary/unmapped/duplicate/low-mapq alignments never reach detection, every allele of every "
+         "returned read was detected on a usable alignment of that name; F11 is characterised by a proved criterion for a "
+         "second indel in the right half of the window",
     technique="Lean 4 proof (walker/prefix/split/decision/window lemma/no-reference SNV machine) + differential "
               "correspondence + ground-truth oracle",
 )
 ASSUMPTIONS = [
-    "default re-alignment only (no --use-affine / k-merald); overhang 10 in the pipeline stream, 0–12 in synthetic calls",
+    "re-alignment by Levenshtein distance and by affine gap costs (whatshap genotype --affine-gap; in-process only: phase has "
+    "no such option and genotype does not expose its reads), no k-merald, no CRAM; overhang 10 in the pipeline streams, 0–12 in "
+    "synthetic calls",
+    "affine DP: the code's float tables hold integers far below 2^24 (exact) and INT_MAX entries are never the minimum of a "
+    "reachable cell (modelled as 'no value'); the prefix/suffix shortcut is minimal only for gap_extend <= gap_start "
+    "(defaults 7 <= 10; a Lean witness shows it is not for 5 > 1)",
+    "the alignments handed to the model are what pysam's fetch delivers (htslib's overlap test is trusted, reference_end is "
+    "tied to the CIGAR on every record); with several BAM files the precedence between errors of different files is not "
+    "modelled (error vs. no error is compared)",
     "variant positions unique and sorted (ReadSetReader.read asserts uniqueness; VCF order); bi-allelic records in the "
     "ground-truth streams, multi-allelic ones only in synthetic calls",
     "edit_distance is true Levenshtein distance (property C19)",
-    "reads carry a sequence (SEQ '*' is outside the property)",
+    "reads carry a sequence (SEQ '*' is outside the property; the crash of read() on such a record is modelled as it is and "
+    "reported as an observation, proposed finding F40)",
 ]
 
 # The no-reference clause of C06 ("without one this holds for SNVs and unshiftable insertions/deletions ...") can be read
@@ -460,6 +483,320 @@ def check_group(ctx, cases):
             ctx.nontrivial(("group", json.dumps(c, sort_keys=True)))
 
 
+
+# ------------------------------------------------------------------------------------------------
+# K/O: affine gap costs (`edit_distance_affine_gap`, the `use_affine` branch of `realign`)
+# ------------------------------------------------------------------------------------------------
+
+AFFINE_DEFAULT = [10, 7, 15]     # gap_start, gap_extend, default_mismatch of ReadSetReader / `whatshap genotype --affine-gap`
+
+
+def py_affine_brute(q, r, mm, gs, ge):
+    """independent yard-stick: minimum cost over all alignments, by memoised recursion over (i, j, kind of the previous
+    column); a gap column costs ge directly after a gap column of the same kind, else gs"""
+    from functools import lru_cache
+
+    @lru_cache(None)
+    def go(i, j, st):
+        if i == len(q) and j == len(r):
+            return 0
+        best = None
+        if i < len(q) and j < len(r):
+            best = (0 if q[i] == r[j] else mm[i]) + go(i + 1, j + 1, 0)
+        if i < len(q):
+            c = (ge if st == 1 else gs) + go(i + 1, j, 1)
+            best = c if best is None else min(best, c)
+        if j < len(r):
+            c = (ge if st == 2 else gs) + go(i, j + 1, 2)
+            best = c if best is None else min(best, c)
+        return best
+    return go(0, 0, 0)
+
+
+def gen_affine_case(rng):
+    al = rng.choice(["AC", "ACG", "ACGT"])
+    n = rng.randrange(0, 14)
+    q = "".join(rng.choice(al) for _ in range(n))
+    if rng.random() < 0.6:
+        r = list(q)
+        for _ in range(rng.randrange(0, 4)):
+            k = rng.random()
+            if r and k < 0.3:
+                a = rng.randrange(len(r)); del r[a:a + rng.randrange(1, 4)]
+            elif k < 0.6:
+                a = rng.randrange(len(r) + 1); r[a:a] = [rng.choice(al) for _ in range(rng.randrange(1, 4))]
+            elif r:
+                r[rng.randrange(len(r))] = rng.choice(al)
+        r = "".join(r)
+    else:
+        r = "".join(rng.choice(al) for _ in range(rng.randrange(0, 14)))
+    gs, ge = rng.choice([(10, 7), (10, 7), (10, 7), (1, 1), (3, 1), (5, 5), (4, 0), (12, 2), (1, 5), (2, 9), (0, 3)])
+    mm = [rng.choice([15, 1, 2, 30, 7]) for _ in q] if rng.random() < 0.4 else [rng.choice([15, 15, 1, 3])] * len(q)
+    return {"query": q, "ref": r, "mismatch": mm, "gs": gs, "ge": ge}
+
+
+def check_affine(ctx, cases):
+    from whatshap.align import edit_distance_affine_gap
+    reqs = [dict(op="c06.affine", query=c["query"], ref=c["ref"], mismatch=c["mismatch"], gs=c["gs"], ge=c["ge"],
+                 spec=(len(c["query"]) + len(c["ref"]) <= 11)) for c in cases]
+    outs = ctx.model.ask_many(reqs)
+    for c, m in zip(cases, outs):
+        ctx.evaluated()
+        try:
+            impl = edit_distance_affine_gap(c["query"], c["ref"], c["mismatch"], c["gs"], c["ge"])
+        except Exception as e:
+            impl = {"err": _exc(e)}
+        if impl != m.get("dist"):
+            ctx.disagree("c06.affine", c, impl, m)
+        if "spec" in m and m["spec"] != m["dp"]:
+            # theorem affineDP_eq_spec: the three-table DP is the minimum over the enumerated alignments
+            ctx.disagree("c06.affine-dp-vs-enumeration", c, m["dp"], m["spec"])
+        if c["ge"] <= c["gs"]:
+            want = py_affine_brute(c["query"], c["ref"], tuple(c["mismatch"]), c["gs"], c["ge"])
+            if "spec" in m and m["spec"] != want:
+                ctx.disagree("c06.affine-spec-vs-python", c, want, m["spec"])
+            if impl != want:
+                ctx.fail(f"edit_distance_affine_gap({c['query']!r}, {c['ref']!r}, gap_start={c['gs']}, gap_extend={c['ge']}) = {impl}, "
+                         f"but the cheapest alignment costs {want}", {"stream": "affine", "case": c}, key="affine-distance-not-minimal")
+        if impl:
+            ctx.nontrivial(("affine", json.dumps(c, sort_keys=True)))
+        ctx.dist("affine.params", f"gs={c['gs']},ge={c['ge']}")
+
+
+def impl_realign_q(c):
+    from whatshap.variants import ReadSetReader
+    from whatshap.core import Genotype
+    v = _mk_variant(*c["variant"])
+    restricted = Genotype(c["restricted"]) if c["restricted"] is not None else None
+    read = SimpleNamespace(query_sequence=c["query"])
+    af = c["affine"]
+    try:
+        a, q = ReadSetReader.realign(v, restricted, read, [tuple(x) for x in c["cigar"]], c["i"], c["consumed"], c["query_pos"],
+                                     c["reference"], c["overhang"], af is not None, af[0] if af else None, af[1] if af else None,
+                                     af[2] if af else None, False, None, 7, 40, 25, None, None)
+        return None if a is None else [int(a), int(q)]
+    except Exception as e:
+        return {"err": _exc(e)}
+
+
+def check_realign_q(ctx, cases):
+    reqs = [dict(op="c06.realign_q", variant=c["variant"], restricted=c["restricted"], query=c["query"], cigar=c["cigar"], i=c["i"],
+                 consumed=c["consumed"], query_pos=c["query_pos"], reference=c["reference"], overhang=c["overhang"],
+                 affine=_maff(c["affine"]), asis=ASIS) for c in cases]
+    outs = ctx.model.ask_many(reqs)
+    for c, m in zip(cases, outs):
+        impl = impl_realign_q(c)
+        ctx.evaluated()
+        if impl != m:
+            ctx.disagree("c06.realign_q", c, impl, m)
+        if isinstance(impl, list):
+            ctx.nontrivial(("realign_q", json.dumps(c, sort_keys=True)))
+            if c["affine"] and impl[1] > 0 and len(c["variant"][2]) + 1 > 1 and c["restricted"] is None:
+                ctx.observe("affine: positive quality (distances[0]-distances[1] > 0 after sorting?)")
+            if c["affine"] and impl[1] < 0:
+                ctx.dist("affine.quality-sign", "negative")
+
+
+def gen_realign_q_case(rng):
+    c = gen_realign_case(rng)
+    c["affine"] = rng.choice([AFFINE_DEFAULT, AFFINE_DEFAULT, [3, 1, 2], [1, 1, 1], [5, 5, 9], None])
+    return c
+
+
+# ------------------------------------------------------------------------------------------------
+# K/O: which alignments reach detection, and how their alleles become reads (`ReadSetReader.read` as a whole)
+# ------------------------------------------------------------------------------------------------
+
+KEY_FILTER_LOST = "usable-alignment-filtered"
+KEY_FILTER_LEAK = "filtered-alignment-contributes"
+# proposed repairs that change the modelled behaviour (see notes/C06.md): C06_FIXED=F40,F41 compares with the repaired model
+FIXED = [x for x in os.environ.get("C06_FIXED", "").split(",") if x]
+
+
+def _maff(a):
+    """affine parameters for the model: a fourth element 1 selects the repaired quality sign (proposed F42)"""
+    return None if a is None else list(a[:3]) + ([1] if "F42" in FIXED else [])
+
+
+def _tag(a, t, default):
+    return a.get_tag(t) if a.has_tag(t) else default
+
+
+def model_sources(bams):
+    """the alignment records as pysam delivers them (independent of whatshap), in the shape of the `c06.read` op"""
+    srcs = []
+    for b in bams:
+        with pysam.AlignmentFile(b) as af:
+            rgs = [[g["ID"], g.get("SM")] for g in af.header.to_dict().get("RG", [])]
+            alns = []
+            for a in af.fetch("chr1"):
+                ps = _tag(a, "PS", -1)
+                try:
+                    ps = int(ps)
+                except ValueError:
+                    ps = None
+                alns.append({"name": a.query_name, "flag": a.flag, "mapq": a.mapping_quality, "rg": _tag(a, "RG", None),
+                             "start": a.reference_start, "cigar": [list(x) for x in a.cigartuples] if a.cigartuples else None,
+                             "query": a.query_sequence, "quals": list(a.query_qualities) if a.query_qualities is not None else None,
+                             "bx": _tag(a, "BX", ""), "hp": _tag(a, "HP", -1), "ps": ps})
+                if a.cigartuples is not None and not a.is_unmapped:
+                    # the model computes reference_end = bam_endpos itself: tie it to pysam here
+                    span = sum(n for op, n in a.cigartuples if op in (0, 2, 3, 7, 8))
+                    assert a.reference_end == a.reference_start + max(1, span)
+            srcs.append({"rgs": rgs, "alns": alns})
+    return srcs
+
+
+def py_must_drop(rec, cfg, sample, rgs):
+    """independent reading of the filter: True = this record must not reach detection"""
+    f = rec["flag"]
+    if f & F.FLAG_SECONDARY or f & F.FLAG_UNMAPPED:
+        return True
+    if f & F.FLAG_DUP and not cfg["duplicates"]:
+        return True
+    if f & F.FLAG_SUPP and not cfg["supplementary"]:
+        return True
+    if rec["mapq"] < cfg["mapq"]:
+        return True
+    if sample is not None:
+        sm = {i: s for i, s in rgs[rec["src"]]}
+        if rec["rg"] is None or sm.get(rec["rg"]) != sample:
+            return True
+    return False
+
+
+def run_filter_case(ctx, case, label):
+    from whatshap.variants import ReadSetReader
+    from whatshap.core import NumericSampleIds
+    from whatshap.vcf import VcfReader
+    from whatshap.utils import IndexedFasta
+    d = os.path.join(ctx.workdir(), "flt")
+    shutil.rmtree(d, ignore_errors=True)
+    os.makedirs(d)
+    try:
+        fa, bams, vcf, hv, listed = F.write_case(d, case)
+        if not listed:
+            return
+        tables = list(VcfReader(vcf, only_snvs=False))
+        vlist = tables[0].variants if tables else []
+        vjson = [[v.pos, v.ref, [v.alt]] for v in listed]
+        cfg = case["cfg"]
+        af = cfg["affine"]
+        mode = case["mode"]
+        sample = case["sample"]
+        regions = [tuple(x) for x in case["regions"]] if case["regions"] is not None else None
+        refseq = IndexedFasta(fa)["chr1"] if mode == "ref" else None
+        kw = dict(mapq_threshold=cfg["mapq"], overhang=cfg["overhang"], duplicates=cfg["duplicates"],
+                  use_supplementary=cfg["supplementary"], supplementary_distance_threshold=cfg["threshold"])
+        if af:
+            kw.update(affine=True, gap_start=af[0], gap_extend=af[1], default_mismatch=af[2])
+        # ---- implementation
+        impl_usable = {"usable": None, "err": None}
+        reader = ReadSetReader(bams, reference=None, numeric_sample_ids=NumericSampleIds(), **kw)
+        try:
+            try:
+                impl_usable["usable"] = [[a.source_id, a.bam_alignment.query_name, a.bam_alignment.reference_start, a.bam_alignment.flag]
+                                         for a in reader._usable_alignments("chr1", sample, regions)]
+            except Exception as e:
+                impl_usable["err"] = _exc(e)
+            try:
+                rs = reader.read("chr1", vlist, sample, refseq, regions)
+                impl = {"reads": [{"name": r.name, "source": r.source_id, "mapq": r.mapqs[0], "start": r.reference_start, "bx": r.BX_tag,
+                                   "hp": r.HP_tag, "ps": r.PS_tag, "variants": [[v.position, v.allele, v.quality] for v in r]} for r in rs],
+                        "err": None}
+            except Exception as e:
+                impl = {"reads": None, "err": _exc(e)}
+        finally:
+            reader.close()
+        # ---- model
+        mcfg = dict(cfg, affine=_maff(cfg["affine"]), skip_noseq="F40" in FIXED, tolerate_norg="F41" in FIXED)
+        common = dict(cfg=mcfg, sources=model_sources(bams), sample=sample, regions=case["regions"], asis=ASIS)
+        mu, mr = ctx.model.ask_many([dict(op="c06.usable", **common),
+                                     dict(op="c06.read", variants=vjson, reference=case["ref"] if mode == "ref" else None, **common)])
+        ctx.evaluated()
+        where = {"label": label, "case": case}
+        two_errors = case["n_src"] > 1     # error precedence between the merged streams of several files is not modelled
+        if impl_usable["err"] is not None or mu.get("err") is not None:
+            if (impl_usable["err"] is None) != (mu.get("err") is None) or (not two_errors and impl_usable["err"] != mu.get("err")):
+                ctx.disagree("c06.usable", where, impl_usable, mu)
+        elif impl_usable["usable"] != mu.get("usable"):
+            ctx.disagree("c06.usable", where, impl_usable, mu)
+        if impl["err"] is not None or mr.get("err") is not None:
+            if (impl["err"] is None) != (mr.get("err") is None) or (not two_errors and impl["err"] != mr.get("err")):
+                ctx.disagree("c06.read", where, impl, mr)
+        elif impl["reads"] != mr.get("reads"):
+            ctx.disagree("c06.read", where, impl, mr)
+        ctx.dist("filter.outcome", impl["err"] or "reads")
+        ctx.dist("filter.config", f"{mode}{'/affine' if af else ''}{'/regions' if regions else ''}/{case['n_src']}bam")
+        roles = {r["role"] for r in case["records"]}
+        if impl["err"] == "TypeError" and "no-seq" in roles:
+            ctx.observe("F40 (proposed): ReadSetReader.read raises TypeError when a usable alignment without SEQ reaches a variant")
+        if impl["err"] == "KeyError":
+            ctx.observe("F41 (proposed): ReadSetReader.read raises KeyError for an alignment without RG tag when a sample is selected")
+        if impl["err"] is not None or impl_usable["usable"] is None:
+            return
+        # ---- O: the filter itself, judged by an independent reading of its rules
+        usable_keys = {(u[0], u[1], u[2], u[3]) for u in impl_usable["usable"]}
+        got = {(r["source"], r["name"]): {p: a for p, a, _ in r["variants"]} for r in impl["reads"]}
+        by_group = {}
+        for r in case["records"]:
+            by_group.setdefault((r["src"], r["name"]), []).append(r)
+        for r in case["records"]:
+            key = (r["src"], r["name"], r["start"], r["flag"])
+            drop = py_must_drop(r, cfg, sample, case["rgs"])
+            ctx.evaluated()
+            ctx.dist("filter.role", r["role"] + ("/dropped" if drop else "/kept"))
+            in_region = regions is None
+            if drop and key in usable_keys and not any(o is not r and (o["src"], o["name"], o["start"], o["flag"]) == key and
+                                                       not py_must_drop(o, cfg, sample, case["rgs"]) for o in case["records"]):
+                ctx.fail(f"alignment {r['name']} ({r['role']}, flag {r['flag']}, mapq {r['mapq']}, RG {r['rg']}) reaches allele "
+                         f"detection although it is secondary / unmapped / duplicate / supplementary / below the mapq threshold / of "
+                         f"another sample", dict(where, record=r), key=KEY_FILTER_LEAK)
+            if not drop and in_region and key not in usable_keys and r["cigar"] is not None and r["seq"] is not None:
+                ctx.fail(f"alignment {r['name']} ({r['role']}, flag {r['flag']}, mapq {r['mapq']} >= {cfg['mapq']}) is filtered although "
+                         f"it is a primary (or admitted) alignment of the sample", dict(where, record=r), key=KEY_FILTER_LOST)
+            if r["role"].startswith("poison") and drop:
+                ctx.nontrivial(("filter-poison", r["role"], r["name"].endswith("_px"), mode, bool(af), cfg["mapq"]))
+                grp = [o for o in by_group[(r["src"], r["name"])] if not py_must_drop(o, cfg, sample, case["rgs"])]
+                if not grp:
+                    if (r["src"], r["name"]) in got:
+                        ctx.fail(f"a read {r['name']} is built from alignments that are all to be filtered ({r['role']})",
+                                 dict(where, record=r), key=KEY_FILTER_LEAK)
+                elif len(grp) == 1 and grp[0]["role"] in ("good", "qcfail", "edge-mapq", "dup") and grp[0]["seq"] is not None and in_region:
+                    # the good alignment of that name alone decides: the poison's flipped SNV alleles must not show
+                    g = grp[0]
+                    rec = got.get((r["src"], r["name"]), {})
+                    for v in hv:
+                        if v.listed and v.kind == "snv" and v.pos in rec:
+                            k = _query_index(g, v.pos)
+                            if k is not None and k == _query_index(r, v.pos):
+                                carried = 0 if g["seq"][k] == v.ref else (1 if g["seq"][k] == v.alt else None)
+                                if carried is not None and rec[v.pos] != carried:
+                                    ctx.fail(f"allele {rec[v.pos]} recorded for {v!r} on read {r['name']}: that is the allele of the "
+                                             f"filtered {r['role']} alignment, the usable alignment carries {carried}",
+                                             dict(where, record=r), key=KEY_FILTER_LEAK)
+            if r["role"] in ("good", "qcfail") and not drop and in_region and mode == "ref" and len(by_group[(r["src"], r["name"])]) == 1:
+                ctx.nontrivial(("filter-good", r["role"], r["flag"], mode, bool(af)))
+    finally:
+        shutil.rmtree(d, ignore_errors=True)
+
+
+def _query_index(rec, pos):
+    """query index of reference position `pos` inside an M/=/X block of the record, else None"""
+    if rec["cigar"] is None:
+        return None
+    r, q = rec["start"], 0
+    for op, n in rec["cigar"]:
+        if op in (0, 7, 8):
+            if r <= pos < r + n:
+                return q + pos - r
+            r += n; q += n
+        elif op in (1, 4):
+            q += n
+        elif op in (2, 3):
+            r += n
+    return None
+
 # ------------------------------------------------------------------------------------------------
 # O: ground truth through ReadSetReader.read on BAM / FASTA / VCF
 # ------------------------------------------------------------------------------------------------
@@ -505,9 +842,13 @@ def run_scenario(ctx, case, label):
         with pysam.AlignmentFile(bam) as af:
             alns = [a for a in af.fetch("chr1")]
         vjson = [[v.pos, v.ref, [v.alt]] for _, v in listed]
-        for mode in ("ref", "noref"):
-            refarg = fasta["chr1"] if mode == "ref" else None
-            reader = ReadSetReader([bam], reference=None, numeric_sample_ids=NumericSampleIds())
+        for mode in ("ref", "noref", "affine"):
+            # "affine": the re-alignment of `whatshap genotype --affine-gap` (default costs); there is no such option in
+            # `whatshap phase`, and genotype does not expose its reads, so this stream runs in-process only
+            refarg = fasta["chr1"] if mode != "noref" else None
+            akw = dict(affine=True, gap_start=AFFINE_DEFAULT[0], gap_extend=AFFINE_DEFAULT[1],
+                       default_mismatch=AFFINE_DEFAULT[2]) if mode == "affine" else {}
+            reader = ReadSetReader([bam], reference=None, numeric_sample_ids=NumericSampleIds(), **akw)
             try:
                 rs = reader.read("chr1", vlist, "S1", refarg)
             except Exception as e:  # a crash on error-free reads with valid CIGARs: nothing is recorded at all
@@ -526,6 +867,10 @@ def run_scenario(ctx, case, label):
                 if mode == "ref":
                     reqs.append(dict(op="c06.detect_ref", variants=vjson, j=0, ref_start=a.reference_start, cigar=[list(x) for x in a.cigartuples],
                                      query=a.query_sequence, reference=case["ref"], overhang=10, asis=ASIS))
+                elif mode == "affine":
+                    reqs.append(dict(op="c06.detect_ref_q", variants=vjson, restricted=None, j=0, ref_start=a.reference_start,
+                                     cigar=[list(x) for x in a.cigartuples], query=a.query_sequence, reference=case["ref"], overhang=10,
+                                     affine=_maff(AFFINE_DEFAULT), asis=ASIS))
                 else:
                     reqs.append(dict(op="c06.detect_noref", variants=vjson, first=0, ref_start=a.reference_start,
                                      cigar=[list(x) for x in a.cigartuples], query=a.query_sequence,
@@ -542,7 +887,7 @@ def run_scenario(ctx, case, label):
                 if impl != mm:
                     ctx.disagree(f"c06.detect_{mode}", {"label": label, "read": a.query_name, "start": a.reference_start,
                                                         "cigar": a.cigarstring, "query": a.query_sequence, "variants": vjson,
-                                                        "reference": case["ref"] if mode == "ref" else None}, impl, mm)
+                                                        "reference": case["ref"] if mode != "noref" else None}, impl, mm)
                 det = [[vjson[i][0], al, q] for i, al, q in (impl["out"] or [])]
                 per_aln[(a.query_name, a.is_read2)] = {p: al for p, al, _ in det}
                 per_aln_model[(a.query_name, a.is_read2)] = {vjson[i][0]: al for i, al, q in (mm["out"] or [])}
@@ -551,8 +896,12 @@ def run_scenario(ctx, case, label):
                         order.append(a.query_name)
                     groups.setdefault(a.query_name, []).append({"supp": a.is_supplementary, "rev": a.is_reverse, "start": a.reference_start,
                                                                 "end": a.reference_end, "variants": det})
-            gouts = ctx.model.ask_many([dict(op="c06.group", group=groups[n], threshold=100000, asis=ASIS) for n in order])
-            exp = {n: g for n, g in zip(order, gouts) if g is not None}
+            if mode == "affine":
+                # qualities are differences of distances (<= 0): the merge of mates is compared by the filter stream (`c06.read`)
+                gouts, exp = [], got
+            else:
+                gouts = ctx.model.ask_many([dict(op="c06.group", group=groups[n], threshold=100000, asis=ASIS) for n in order])
+                exp = {n: g for n, g in zip(order, gouts) if g is not None}
             if exp != got:
                 diff = [n for n in set(exp) | set(got) if exp.get(n) != got.get(n)]
                 ctx.disagree(f"c06.readset_{mode}", {"label": label, "names": diff[:5], "case": case},
@@ -573,6 +922,9 @@ def impl_detect(mode, vlist, aln, reference):
     try:
         if mode == "ref":
             for t in ReadSetReader.detect_alleles_by_alignment(vlist, None, 0, aln, reference, 10):
+                out.append([int(x) for x in t])
+        elif mode == "affine":
+            for t in ReadSetReader.detect_alleles_by_alignment(vlist, None, 0, aln, reference, 10, True, *AFFINE_DEFAULT):
                 out.append([int(x) for x in t])
         else:
             nvs = [v.normalized() for v in vlist]
@@ -636,13 +988,13 @@ def oracle(ctx, case, label, mode, hv, listed, by_name, got, per_aln, valid=None
                 if len(mates) > 1 and found_by_mate:
                     ctx.fail(f"{mode}: allele {a} of {v!r} detected on a mate but missing from the merged read "
                              f"({mates[0]['paired']} pair)", where(), key=KEY_F12)
-                elif mode == "ref":
+                elif mode in ("ref", "affine"):
                     if isolated:
-                        ctx.fail(f"ref: allele {a} of {v!r} not found for an error-free, fully covering read (isolated variant"
+                        ctx.fail(f"{mode}: allele {a} of {v!r} not found for an error-free, fully covering read (isolated variant"
                                  + (f", {near_n} bp from an N skip" if near_n is not None and near_n < 12 else "") + ")", where(),
-                                 key="ref-allele-not-found-isolated" + ("-near-refskip" if near_n is not None and near_n < 12 else ""))
+                                 key=f"{mode}-allele-not-found-isolated" + ("-near-refskip" if near_n is not None and near_n < 12 else ""))
                     else:
-                        ctx.observe("ref: no allele (tie) for a fully covering read with a second non-REF allele in the window")
+                        ctx.observe(f"{mode}: no allele (tie) for a fully covering read with a second non-REF allele in the window")
                 elif valid is not None and vidx[i] not in valid:
                     # detect_non_overlapping_variants drops variants that share a (normalised) position with an earlier one
                     # or lie inside a deletion: by design nothing is ever recorded for them without a reference
@@ -671,12 +1023,12 @@ def oracle(ctx, case, label, mode, hv, listed, by_name, got, per_aln, valid=None
             # the same wrong allele for this alignment); a wrong allele the algorithm's model does not give is a new failure
             inherent = per_aln_model is None or any(
                 per_aln_model.get((name, m["mate"] == 1), {}).get(v.pos) == g for m in mates if m["truth"][i]["full"])
-            if mode == "ref" and not isolated and not inherent:
-                ctx.fail(f"ref: WRONG allele {g} (carried: {a}) for {v!r} on an error-free, fully covering read; the window "
+            if mode in ("ref", "affine") and not isolated and not inherent:
+                ctx.fail(f"{mode}: WRONG allele {g} (carried: {a}) for {v!r} on an error-free, fully covering read; the window "
                          f"re-alignment as modelled gives {[per_aln_model.get((name, m['mate'] == 1), {}).get(v.pos) for m in mates]} "
-                         f"here, so this is not the known limitation F11", where(), key="wrong-allele-ref-close-not-inherent")
-            elif mode == "ref" and not isolated:
-                ctx.fail(f"ref: WRONG allele {g} (carried: {a}) for {v!r}: second non-REF allele of the same haplotype inside "
+                         f"here, so this is not the known limitation F11", where(), key=f"wrong-allele-{mode}-close-not-inherent")
+            elif mode in ("ref", "affine") and not isolated:
+                ctx.fail(f"{mode}: WRONG allele {g} (carried: {a}) for {v!r}: second non-REF allele of the same haplotype inside "
                          f"the ±10 bp window", where(), key=KEY_F11)
             else:
                 ctx.fail(f"{mode}: WRONG allele {g} (carried: {a}) for {v!r} on an error-free, fully covering read"
@@ -732,6 +1084,10 @@ def _run(ctx):
     logging.getLogger("whatshap").setLevel(logging.CRITICAL)   # "Unsupported CIGAR operation" etc. are provoked on purpose
     if ctx.replay:
         c = ctx.replay
+        if isinstance(c, str):     # a path: a replay file written by a failed run ({"case": ...}) or a corpus file (the case itself)
+            c = json.load(open(c))
+            if isinstance(c.get("case"), dict) and "property" in c:
+                c = c["case"]
         replay_case(ctx, c, "replay")
         return
     for name, c in ctx.corpus():
@@ -740,8 +1096,9 @@ def _run(ctx):
     s = ctx.scale
     n_syn = (2500 if q else 40000) * s
     for mk, chk in ((gen_iter_case, check_iter), (gen_prefix_case, check_prefix_split), (gen_realign_case, check_realign),
-                    (gen_noref_case, check_noref), (gen_group_case, check_group)):
-        cases = [mk(rng) for _ in range(n_syn if mk is not gen_group_case else n_syn // 3)]
+                    (gen_noref_case, check_noref), (gen_group_case, check_group), (gen_affine_case, check_affine),
+                    (gen_realign_q_case, check_realign_q)):
+        cases = [mk(rng) for _ in range(n_syn if mk not in (gen_group_case, gen_realign_q_case) else n_syn // 3)]
         for k in range(0, len(cases), 500):
             chk(ctx, cases[k:k + 500])
     if not q:
@@ -750,6 +1107,13 @@ def _run(ctx):
         exhaustive_prefix(ctx, 3, 2, (0, 1, 2, 3, 4, 5, 7))
         ctx.extra["exhaustive_note"] = ("walker: all CIGARs of <= 3 ops over all nine operators (<= 4 ops over MIDNS), lengths 1-2, "
                                         "a variant at every reference position; prefix/split: <= 3 ops, every k")
+    n_flt = (60 if q else 1500) * s
+    for k in range(n_flt):
+        case = F.make_case(rng)
+        if k < 1:
+            ctx.sample({"stream": "filter", "cfg": case["cfg"], "sample": case["sample"], "regions": case["regions"], "mode": case["mode"],
+                        "records": [{kk: r_[kk] for kk in ("name", "flag", "mapq", "rg", "role", "src")} for r_ in case["records"][:6]]})
+        run_filter_case(ctx, case, f"filter#{k}")
     n_scn = (120 if q else 3000) * s
     for k in range(n_scn):
         r = rng.random()
@@ -774,8 +1138,18 @@ def replay_case(ctx, c, label):
     kind = c.get("stream") or c.get("kind")
     if "label" in c and "case" in c and isinstance(c["case"], dict) and "reads" in c["case"]:
         run_scenario(ctx, minimal(c), label)
+    elif kind == "filter" and "records" in c:
+        run_filter_case(ctx, c, label)
+    elif kind == "filter" or ("label" in c and isinstance(c.get("case"), dict) and c["case"].get("stream") == "filter"):
+        run_filter_case(ctx, c["case"], label)
     elif kind in ("isolated", "close", "twins"):
         run_scenario(ctx, c, label)
+    elif kind == "affine":
+        check_affine(ctx, [c["case"]])
+    elif "mismatch" in c:
+        check_affine(ctx, [c])
+    elif "variant" in c and "affine" in c:
+        check_realign_q(ctx, [c])
     elif kind == "group":
         check_group(ctx, [c["case"]])
     elif kind == "iter":
